@@ -82,6 +82,29 @@ fn single(ctx: &Ctx, rep: &mut Report, id: usize, cfg: Cfg, k: usize, leg: &str)
             },
         }
     }
+    // the owner re-creates the statement over parameters of another capacity: the same mask must come back
+    for cap2 in [cfg.cap * 2, cfg.cap * 4, 1] {
+        if cap2 == cfg.cap || cap2 > 16 || cap2 < cfg.m {
+            continue;
+        }
+        let p2 = params_uncached(cfg.n, cap2, cfg.ext);
+        let Ok(st2) = RangeStatement::init(p2, case.commitments.clone(), case.promises.clone(), case.seed) else {
+            rep.violation(&format!("C09 statement-refused {sig}"), &format!("a seeded single-commitment statement cannot be built over capacity {cap2}"), replay.clone());
+            continue;
+        };
+        for action in [VerifyAction::RecoverAndVerify, VerifyAction::RecoverOnly] {
+            rep.count("cross_capacity_recoveries", 1);
+            match no_panic(|| verify_one(&case.transcript(), &st2, &proof, action)) {
+                Ok(Ok(mask)) => {
+                    if mask_vec(&mask) != Some(truth.clone()) {
+                        rep.violation(&format!("C09 wrong-mask other-capacity {sig}"), &format!("proved with capacity {}, recovered with capacity {cap2}: the mask returned is not the commitment's blinding vector", cfg.cap), replay.clone());
+                    }
+                },
+                Ok(Err(e)) => rep.violation(&format!("C09 rejected other-capacity {sig}"), &format!("proved with capacity {}, rejected with capacity {cap2}: {e}", cfg.cap), replay.clone()),
+                Err(p) => rep.violation(&format!("C09 panic {sig}"), &format!("verify_batch panicked: {p}"), replay.clone()),
+            }
+        }
+    }
     // a statement without the seed yields no mask
     for action in ACTIONS {
         rep.count("recoveries", 1);
